@@ -24,11 +24,12 @@ From BZ Require Import Hand.Sample.
 
 (* ---------- results: generated (option / outcome) -> hand (res) ---------- *)
 (* [PyAssertionError] / [PyNoneError] (added to [pyexc] for the recursive drivers of Gen/CurveCurve.v, Proofs/Bridge4.v) and
-   [PyUnboundLocalError] (added for BezierPath.distanceToPath, Gen/PathOps.v, Proofs/Bridge5.v) are raised by no
+   [PyUnboundLocalError] (added for BezierPath.distanceToPath, Gen/PathOps.v, Proofs/Bridge5.v), [PyZeroDivisionError] /
+   [PyTypeError] (added for the curve fitter, Gen/Fit.v, Proofs/Bridge6.v), [PyConvertError] / [PyClipperError] (pyclipper, Gen/Clip.v) are raised by no
    definition of Gen/Sample.v; Hand/Sample.v has no counterpart, any value will do here *)
 Definition exc_of (e : pyexc) : exc :=
   match e with PyIndexError => IndexError | PyValueError => ValueError | PyOverflowError => OverflowError
-             | PyAssertionError | PyNoneError | PyUnboundLocalError => ValueError end.
+             | PyAssertionError | PyNoneError | PyUnboundLocalError | PyZeroDivisionError | PyTypeError | PyConvertError | PyClipperError => ValueError end.
 Definition res_of_fuel {A : Type} (r : option A) : res A :=
   match r with None => Raise OutOfFuel | Some a => Ok a end.
 Definition res_of_outcome {A : Type} (r : outcome A) : res A :=
